@@ -90,6 +90,15 @@ pub fn run_case(ctx: &mut Ctx, spec: &CaseSpec) {
             )),
         }
     }
+    // lookup flags / mark filtering sets must survive splitting and promotion
+    let lflags: Vec<(u16, Option<u16>)> = (0..plans.len())
+        .map(|_| match rng.usize(4) {
+            0 => (0x0010 | 0x0004, Some(rng.below(40) as u16)),
+            1 => (0x0008, None),
+            2 => (0x0300 | 0x0001, None),
+            _ => (0, None),
+        })
+        .collect();
     let mut n_rules = 0usize;
     let (mut n_glyph_rules, mut n_class_rules, mut n_mark_rules, mut n_dups) = (0, 0, 0, 0);
     for p in &plans {
@@ -121,11 +130,13 @@ pub fn run_case(ctx: &mut Ctx, spec: &CaseSpec) {
     let t0 = Instant::now();
     let built = guard(|| -> Result<Vec<wg::PositionLookup>, String> {
         let mut out = vec![];
-        for p in &plans {
+        for (li, p) in plans.iter().enumerate() {
+            let flags = wl::LookupFlag::from_bits_truncate(lflags[li].0);
+            let mset = lflags[li].1;
             match p {
                 Plans::Pair(v) => {
                     let subs: Vec<_> = v.iter().map(|p| p.build(&mut env)).collect();
-                    let lb = LookupBuilder::new_with_lookups(wl::LookupFlag::empty(), None, subs);
+                    let lb = LookupBuilder::new_with_lookups(flags, mset, subs);
                     let vs = env.vs.as_mut().unwrap();
                     out.push(wg::PositionLookup::Pair(lb.build(vs)));
                 }
@@ -134,7 +145,7 @@ pub fn run_case(ctx: &mut Ctx, spec: &CaseSpec) {
                     for p in v {
                         subs.push(p.build(&mut env)?);
                     }
-                    let lb = LookupBuilder::new_with_lookups(wl::LookupFlag::empty(), None, subs);
+                    let lb = LookupBuilder::new_with_lookups(flags, mset, subs);
                     let vs = env.vs.as_mut().unwrap();
                     out.push(wg::PositionLookup::MarkToBase(lb.build(vs)));
                 }
@@ -306,6 +317,18 @@ pub fn run_case(ctx: &mut Ctx, spec: &CaseSpec) {
                 }
             },
         };
+        if let Some(l) = &rlookup {
+            let got = (l.lookup_flag().to_bits(), l.mark_filtering_set());
+            if got != lflags[li] {
+                ctx.violation(
+                    &format!("lookup-header:{}:L{}", label, li),
+                    case_json(json!({"what": "lookup flag / mark filtering set changed by compilation", "lookup": li,
+                                     "given": [lflags[li].0, lflags[li].1], "compiled": [got.0, got.1], "trace": trace_counts})),
+                    bytes.as_deref(),
+                );
+                return;
+            }
+        }
         match (om, &plans[li]) {
             (OModel::Pair(om), Plans::Pair(pp)) => {
                 let mut rm = match &rlookup {
